@@ -16,13 +16,19 @@ theorem gen_VC (n : Node) (ks' : List Node) (lo hi : Nat) (hs : srcOk n = true) 
     (hkl : KL lo hi ks' n.kids) : VC lo hi (n.withKids ks') n := by
   have hl := hkl.length
   refine ⟨?_, Or.inl (span_withKids n ks' hk), ?_, ?_, ?_⟩
-  · intro σ
-    obtain ⟨Xs, Δ, eX, sX, wX⟩ := eraseL_KL hkl σ
+  · intro m hb σ
+    have hnb : isBlockNode (n.withKids ks') = false := by
+      cases n <;> simp only [structK, Bool.false_eq_true] at hk <;> rfl
+    obtain ⟨ks'', rfl, hks⟩ := hb.inv hnb
+    rw [Node.kids_withKids n ks' hl] at hks
+    have hl2 : ks''.length = n.kids.length := by rw [hks.length, hl]
+    rw [Node.withKids_withKids n ks' ks'' hl hl2]
+    obtain ⟨Xs, Δ, eX, sX, wX⟩ := eraseL_KL hkl ks'' hks σ
     have hlX := Forall2_Sim_length sX
     refine ⟨n.withKids Xs, Δ, ?_, ?_, wX⟩
-    · rw [erase_struct _ (by rw [structK_withKids]; exact hk), Node.kids_withKids n ks' hl, eX]
+    · rw [erase_struct _ (by rw [structK_withKids]; exact hk), Node.kids_withKids n ks'' hl2, eX]
       simp only
-      rw [Node.withKids_withKids n ks' Xs hl hlX]
+      rw [Node.withKids_withKids n ks'' Xs hl2 hlX]
     · refine ⟨strip_withKids n Xs hk hlX (Forall2_Sim_strip sX), Or.inl (span_withKids n Xs hk), ?_⟩
       exact noSp_of_unSpread (unSpread_withKids n Xs hk (srcOk_self hs)) (notArg_withKids n Xs hk)
   · cases n <;> simp only [structK, Bool.false_eq_true] at hk <;> simp only [withKids, Deep]
@@ -39,8 +45,9 @@ theorem gen_VC (n : Node) (ks' : List Node) (lo hi : Nat) (hs : srcOk n = true) 
 
 theorem arg_VC {lo hi : Nat} {s : Option Span} {e' e : Node} (h : VC lo hi e' e) : VC lo hi (.arg s e') (.arg s e) := by
   refine ⟨?_, ?_, ?_, rfl, by simp [Node.isIdent]⟩
-  · intro σ
-    obtain ⟨X, Δ, eX, sX, wX⟩ := h.1 σ
+  · intro m hb σ
+    obtain ⟨e'', rfl, he⟩ := hb.arg_inv
+    obtain ⟨X, Δ, eX, sX, wX⟩ := h.1 e'' he σ
     refine ⟨.arg s X, Δ, by simp only [erase, eX], ?_, wX⟩
     refine ⟨by simp only [strip, sX.1], ?_, by simpa [noSp] using sX.2.2⟩
     have := sX.2.1
@@ -68,9 +75,10 @@ theorem paren_VC {lo hi : Nat} {e' e : Node} {sp : Span} (hs : srcOk (.paren e s
     VC lo hi (.paren e' sp) (.paren e sp) := by
   have hloose := loose_of_spanRel h.2.1 (srcOk_self hs)
   refine ⟨?_, Or.inl rfl, ?_, rfl, by simp [Node.isIdent]⟩
-  · intro σ
-    obtain ⟨X, Δ, eX, sX, wX⟩ := h.1 σ
-    refine ⟨.paren X sp, Δ, by rw [erase_paren_loose _ _ _ hloose, eX], ?_, wX⟩
+  · intro m hb σ
+    obtain ⟨e'', rfl, he⟩ := hb.paren_inv
+    obtain ⟨X, Δ, eX, sX, wX⟩ := h.1 e'' he σ
+    refine ⟨.paren X sp, Δ, by rw [erase_paren_loose _ _ _ (by rw [BRg.span _ _ he]; exact hloose), eX], ?_, wX⟩
     exact ⟨by simp only [strip, sX.1], Or.inl rfl, by simp [noSp, unSpread]⟩
   · simp only [Deep]
     intro _
@@ -85,9 +93,17 @@ theorem seq_VC {lo hi : Nat} {es' es : List Node} {sp : Span} (h : KL lo hi es' 
       | nil => simp [KL, Forall2] at h
       | cons y ys => simp only [KL, Forall2] at h; exact h.1.2.2.2.1
   refine ⟨?_, Or.inl rfl, by simp [Deep], rfl, by simp [Node.isIdent]⟩
-  intro σ
-  obtain ⟨Xs, Δ, eX, sX, wX⟩ := eraseL_KL h σ
-  refine ⟨.seq Xs sp, Δ, by simp only [erase, hhead, Bool.false_eq_true, if_false, eX], ?_, wX⟩
+  intro m hb σ
+  obtain ⟨es'', rfl, hes⟩ := hb.seq_inv
+  have hhead2 : headIsTempAssign es'' = false := by
+    cases es' with
+    | nil => rw [BRgL.nil_inv hes]; rfl
+    | cons x xs =>
+      obtain ⟨x'', xs'', rfl, hx, _⟩ := BRgL.cons_inv hes
+      simp only [headIsTempAssign] at hhead ⊢
+      rw [hx.isTempAssign]; exact hhead
+  obtain ⟨Xs, Δ, eX, sX, wX⟩ := eraseL_KL h es'' hes σ
+  refine ⟨.seq Xs sp, Δ, by simp only [erase, hhead2, Bool.false_eq_true, if_false, eX], ?_, wX⟩
   exact ⟨by simp only [strip, Forall2_Sim_strip sX], Or.inl rfl, by simp [noSp, unSpread]⟩
 
 theorem cond_VC {lo hi : Nat} {t' c' a' t c a : Node} {sp : Span} (hs : srcOk (.cond t c a sp) = true)
@@ -95,13 +111,14 @@ theorem cond_VC {lo hi : Nat} {t' c' a' t c a : Node} {sp : Span} (hs : srcOk (.
   have hsp : sp.isDummy = false := by
     have := srcOk_self hs; simpa [srcNode] using this
   refine ⟨?_, Or.inl rfl, by simp [Deep], rfl, by simp [Node.isIdent]⟩
-  intro σ
-  obtain ⟨Xs, Δ, eX, sX, wX⟩ := eraseL_KL h σ
+  intro m hb σ
+  obtain ⟨t'', c'', a'', rfl, ht, hc, ha⟩ := hb.cond_inv
+  obtain ⟨Xs, Δ, eX, sX, wX⟩ := eraseL_KL h [t'', c'', a''] (BRgL.cons ht (BRgL.cons hc (BRgL.cons ha BRgL.nil))) σ
   simp only [eraseL] at eX
   have hX := congrArg Prod.fst eX
   have hE := congrArg Prod.snd eX
   simp only at hX hE
-  refine ⟨.cond (erase σ t').1 (erase (erase σ t').2 c').1 (erase (erase (erase σ t').2 c').2 a').1 sp, Δ, ?_, ?_, wX⟩
+  refine ⟨.cond (erase σ t'').1 (erase (erase σ t'').2 c'').1 (erase (erase (erase σ t'').2 c'').2 a'').1 sp, Δ, ?_, ?_, wX⟩
   · simp only [erase, isLoweredGuard_src _ _ _ _ hsp]
     rw [hE]
   · have hst := Forall2_Sim_strip sX
@@ -123,11 +140,12 @@ theorem assign_VC {lo hi : Nat} {op : String} {l' r' l r : Node} {sp : Span} (hs
   have h0 := srcOk_self hs
   simp only [srcNode, Bool.and_eq_true, Bool.not_eq_true'] at h0
   refine ⟨?_, Or.inl rfl, by simp [Deep], ?_, by simp [Node.isIdent]⟩
-  · intro σ
-    obtain ⟨L, Δ1, e1, s1, w1⟩ := hl.1 σ
-    obtain ⟨R, Δ2, e2, s2, w2⟩ := hr.1 (Δ1 ++ σ)
+  · intro m hb σ
+    obtain ⟨l'', r'', rfl, hl'', hr''⟩ := hb.assign_inv
+    obtain ⟨L, Δ1, e1, s1, w1⟩ := hl.1 l'' hl'' σ
+    obtain ⟨R, Δ2, e2, s2, w2⟩ := hr.1 r'' hr'' (Δ1 ++ σ)
     refine ⟨.assign op L R sp, Δ2 ++ Δ1, ?_, ?_, w2.append w1⟩
-    · rw [erase_assign_nt _ _ _ _ _ hnt, e1]
+    · rw [erase_assign_nt _ _ _ _ _ (by rw [hl''.tempTarget]; exact hnt), e1]
       simp only
       rw [e2]
       simp only [List.append_assoc, Prod.mk.injEq, and_true]
@@ -184,17 +202,62 @@ theorem calleeKind_of_VC {lo hi : Nat} {c' c : Node} (h : VC lo hi c' c) (hs : s
     | _ => cases p' <;> rfl
   | _ => rfl
 
+/-- a replacement of nested blocks cannot turn a callee into a hook or a call through a temporary -/
+theorem calleeKind_BRg {c c'' : Node} (h : BRg c c'') : calleeKind c'' = calleeKind c := by
+  cases c with
+  | member o p msp =>
+    obtain ⟨o'', p'', rfl, ho, hp⟩ := h.member_inv
+    cases o with
+    | ident nm isp =>
+      rw [BRg_noBlk (noBlk_ident _ _) ho]
+      cases p with
+      | pname q qsp => rw [BRg_noBlk (noBlk_pname _ _) hp]
+      | block ss bsp => rcases hp.block_inv with rfl | ⟨ss', rfl, _⟩ <;> cases nm <;> rfl
+      | _ =>
+        obtain ⟨ks', rfl, _⟩ := hp.inv rfl
+        cases nm <;> rfl
+    | block ss bsp => rcases ho.block_inv with rfl | ⟨ss', rfl, _⟩ <;> rfl
+    | _ =>
+      obtain ⟨ks', rfl, _⟩ := ho.inv rfl
+      rfl
+  | block ss sp => rcases h.block_inv with rfl | ⟨ss', rfl, _⟩ <;> rfl
+  | _ =>
+    obtain ⟨ks', rfl, _⟩ := h.inv rfl
+    rfl
+
 theorem call_VC {lo hi : Nat} {c' c : Node} {as' as : List Node} {sp : Span} (hs : srcOk (.call c as sp) = true)
     (hc : VC lo hi c' c) (ha : KL lo hi as' as) : VC lo hi (.call c' as' sp) (.call c as sp) := by
   have hck := calleeKind_of_VC hc (srcOk_kids hs c (by simp [kids]))
   refine ⟨?_, Or.inl rfl, by simp [Deep], rfl, by simp [Node.isIdent]⟩
-  intro σ
-  obtain ⟨C, Δ1, e1, s1, w1⟩ := hc.1 σ
-  obtain ⟨Xs, Δ2, e2, s2, w2⟩ := eraseL_KL ha (Δ1 ++ σ)
+  intro m hb σ
+  obtain ⟨c'', as'', rfl, hcc, has⟩ := hb.call_inv
+  obtain ⟨C, Δ1, e1, s1, w1⟩ := hc.1 c'' hcc σ
+  obtain ⟨Xs, Δ2, e2, s2, w2⟩ := eraseL_KL ha as'' has (Δ1 ++ σ)
   refine ⟨.call C Xs sp, Δ2 ++ Δ1, ?_, ?_, w2.append w1⟩
-  · rw [erase_call_plain _ _ _ _ hck, e1]
+  · rw [erase_call_plain _ _ _ _ (by rw [calleeKind_BRg hcc]; exact hck), e1]
     simp only
     rw [e2, List.append_assoc]
   · exact ⟨by simp only [strip, s1.1, Forall2_Sim_strip s2], Or.inl rfl, noSp_call _ _ _⟩
+
+/-- nodes the visitor only descends into, keeping the constructor -/
+def genK : Node → Bool
+  | .arg .. | .paren .. | .seq .. | .cond .. => true
+  | n => structK n
+
+theorem genAll_VC (n : Node) (hs : srcOk n = true) (hg : genK n = true) (lo hi : Nat) (ks' : List Node)
+    (hkl : KL lo hi ks' n.kids) : VC lo hi (n.withKids ks') n := by
+  have hl := hkl.length
+  cases n with
+  | arg sA e =>
+    match ks', hl, hkl with
+    | [e'], _, hkl => simp only [KL, kids, Forall2] at hkl; exact arg_VC hkl.1
+  | paren e sp =>
+    match ks', hl, hkl with
+    | [e'], _, hkl => simp only [KL, kids, Forall2] at hkl; exact paren_VC hs hkl.1
+  | seq es sp => exact seq_VC hkl
+  | cond t c a sp =>
+    match ks', hl, hkl with
+    | [t', c', a'], _, hkl => exact cond_VC hs hkl
+  | _ => exact gen_VC _ ks' lo hi hs hg hkl
 
 end IastModel
